@@ -28,12 +28,23 @@ import (
 //            slot2 += 1, logs a slot nobody ever writes) and whose runtime can poke (read-modify-write),
 //            clear slots, or self-destruct: a contract with storage dies and is re-created at the same
 //            address, in a later transaction of the same block or in a later block.
+//   sprayer  a loop paying 1 wei to each of n consecutive addresses: the long chains hold a crowd of a few thousand
+//            accounts with code, storage and a large balance there, so that one call changes more account data than
+//            fits one database batch (the merge of that layer into the snapshot's disk layer is written in several).
 
 var (
 	churnAddr   = common.BytesToAddress([]byte{0xf1, 0x5e, 0x10})
 	ballastAddr = common.BytesToAddress([]byte{0xf1, 0x5e, 0x11})
 	factoryAddr = common.BytesToAddress([]byte{0xf1, 0x5e, 0x12})
+	sprayAddr   = common.BytesToAddress([]byte{0xf1, 0x5e, 0x16})
 )
+
+// crowdBase: the crowd accounts of the long chains live at crowdBase + i.
+var crowdBase = []byte{0xc5, 0x0d, 0, 0, 0, 0, 0, 0, 0, 0}
+
+func crowdAddr(i uint64) common.Address {
+	return common.BigToAddress(new(big.Int).Add(new(big.Int).SetBytes(crowdBase), new(big.Int).SetUint64(i)))
+}
 
 const (
 	topicCreated = 0xc2 // factory: data = address returned by CREATE2 (0: failed)
@@ -76,6 +87,24 @@ func ballastCode() []byte {
 	p.op(kvm.DUP1).push(64).op(kvm.CALLDATALOAD, kvm.ADD) // n, i, v+i
 	p.op(kvm.DUP2).push(32).op(kvm.CALLDATALOAD, kvm.ADD) // n, i, v+i, base+i
 	p.op(kvm.SSTORE)                                      // n, i
+	p.push(1).op(kvm.ADD)                                 // n, i+1
+	p.pushLabel("loop").op(kvm.JUMP)
+	p.label("end").op(kvm.STOP)
+	return p.bytes()
+}
+
+// sprayerCode: call data = (n, from); pays 1 wei to crowdBase+from+i for i < n.
+func sprayerCode() []byte {
+	p := newProg()
+	p.push(0).op(kvm.CALLDATALOAD)                        // n
+	p.push(0)                                             // n, i
+	p.label("loop")                                       // n, i
+	p.op(kvm.DUP2, kvm.DUP2, kvm.LT)                      // n, i, i<n
+	p.op(kvm.ISZERO).pushLabel("end").op(kvm.JUMPI)       // n, i
+	p.push(0).push(0).push(0).push(0).push(1)             // n, i, outSize, outOff, inSize, inOff, value
+	p.op(kvm.DUP6).push(32).op(kvm.CALLDATALOAD, kvm.ADD) // ..., i+from
+	p.pushBytes(crowdBase).op(kvm.ADD)                    // ..., address
+	p.push(0).op(kvm.CALL, kvm.POP)                       // n, i   (gas 0: the callee runs on the stipend, and its code is STOP)
 	p.push(1).op(kvm.ADD)                                 // n, i+1
 	p.pushLabel("loop").op(kvm.JUMP)
 	p.label("end").op(kvm.STOP)
